@@ -372,3 +372,63 @@ func verifH_C18_recursive_types() {
 	}
 	verifReach("end")
 }
+
+type verifInnerVP struct {
+	N int32 `json:"n"`
+}
+
+// the same struct by value and through a pointer, in both JSON-name orders
+type verifValueThenPointer struct {
+	A verifInnerVP  `json:"a"`
+	B *verifInnerVP `json:"b"`
+}
+
+type verifPointerThenValue struct {
+	A *verifInnerVP `json:"a"`
+	B verifInnerVP  `json:"b"`
+}
+
+//verif:harness id=C18 tier=quick,thorough witness=end bounds="one struct type used by value and through a pointer in the same type (value first / pointer first in JSON-name order), the pointer nil or set, the int32 member symbolic; and generation that starts from a container of a recursive struct (map[string]T, []T, *T for T recursive through map values and slice elements): the encoding of the value validates against the generated schema and every $ref names a component"
+func verifH_C18_value_and_pointer() {
+	comps := openapi3.Schemas{}
+	var ref *openapi3.SchemaRef
+	var err error
+	var enc any
+	n := verifNondetInt32("n")
+	inner := map[string]any{"n": float64(n)}
+	var ptr any
+	if verifChoose("set", 2) == 1 {
+		ptr = inner
+	}
+	leaf := map[string]any{"name": "m", "sub": map[string]any{}, "list": []any{}}
+	switch verifChoose("type", 5) {
+	case 0:
+		ref, err = NewSchemaRefForValue(&verifValueThenPointer{}, comps)
+		enc = map[string]any{"a": inner, "b": ptr}
+	case 1:
+		ref, err = NewSchemaRefForValue(&verifPointerThenValue{}, comps)
+		enc = map[string]any{"a": ptr, "b": inner}
+	case 2:
+		ref, err = NewSchemaRefForValue(map[string]verifDir{}, comps)
+		enc = map[string]any{"k": map[string]any{"name": "n", "sub": map[string]any{"j": leaf}, "list": []any{leaf}}}
+	case 3:
+		ref, err = NewSchemaRefForValue([]verifDir{}, comps)
+		enc = []any{map[string]any{"name": "n", "sub": map[string]any{"j": leaf}, "list": []any{leaf}}}
+	case 4:
+		ref, err = NewSchemaRefForValue(&verifDir{}, comps)
+		enc = map[string]any{"name": "n", "sub": map[string]any{"j": leaf}, "list": []any{leaf}}
+	}
+	verifAssert(err == nil && ref != nil, "C18 value and pointer: generation succeeds")
+	if err != nil || ref == nil {
+		return
+	}
+	root := &openapi3.SchemaRef{Ref: ref.Ref, Value: ref.Value}
+	verifAssert(verifResolveGen(root, comps, 0), "C18 value and pointer: every $ref in the generated schema names a component")
+	for _, c := range comps {
+		verifAssert(verifResolveGen(c, comps, 0), "C18 value and pointer: every $ref in a generated component names a component")
+	}
+	if root.Value != nil {
+		verifAssert(root.Value.VisitJSON(enc) == nil, "C18 value and pointer: the generated schema accepts the encoding of the value (a nil pointer is null whatever else uses the struct type)")
+	}
+	verifReach("end")
+}
